@@ -63,6 +63,7 @@ fn parse_plan(v: &Value) -> Plan {
             ));
         }
     }
+    p.no_quiesce = v.get("no_quiesce").and_then(Value::as_bool).unwrap_or(false);
     if let Some(vs) = v.get("only_verbs").and_then(Value::as_array) {
         p.only_verbs = vs.iter().filter_map(|x| x.as_str().map(String::from)).collect();
     }
@@ -155,6 +156,7 @@ where
     F: FnOnce(Transport, Arc<TestMonitor>) -> Fut,
     Fut: std::future::Future<Output = T>,
 {
+    let no_quiesce = plan.no_quiesce;
     let shared = Shared::new(ws.root.join("archive"), plan, false);
     let icept = Arc::new(Icept { shared: shared.clone(), actor: 0 });
     let transport = Transport::local_hooked(&ws.root.join("archive"), icept);
@@ -176,7 +178,7 @@ where
                 _ = sh2.halt_notify.notified() => Outcome::Crashed,
                 _ = tokio::time::sleep(Duration::from_secs(60)) => Outcome::Timeout,
             };
-            if let Outcome::Done(_) = out {
+            if let (Outcome::Done(_), false) = (&out, no_quiesce) {
                 sh2.quiesce().await;
             }
             out
